@@ -11,3 +11,24 @@ def predicate(key):
         return f
 
     return deco
+
+
+def _temporal(vspec):
+    d = vspec["dtype"]
+    return d.startswith(("M8", "m8", "tz:"))
+
+
+@predicate("temporal-mean-int64-overflow")
+def temporal_mean_overflow(sub, case, v):
+    """GroupBy.mean of datetime/timedelta values whose exact integer group sum exceeds int64:
+    the library sums the int64 views before dividing, so the sum wraps (e.g. 8 x 2020-01-01 in ns)."""
+    if not v.kind.startswith("value:mean"):
+        return False
+    vs = case["vals"][0]
+    if not _temporal(vs):
+        return False
+    ps = v.extra.get("positions")
+    if ps is None:
+        return False
+    s = sum(vs["vals"][p] for p in ps if vs["vals"][p] is not None)
+    return abs(s) > 2**63 - 1
